@@ -64,9 +64,19 @@ PROPS["C07"] = dict(T(16000, 40, 1000000, 900), level="fault_enumeration",
     technique="deterministic simulation with fault injection: seeded fault plans (handler panics, transport errors) x seeded schedules on the instrumented real code",
     rule="Scenario: 1-4 probe handlers with per-handler exception policy; one injected panic or transport failure; distinct = distinct (fault plan, schedule).")
 
+PROPS["C09"] = dict(T(16000, 40, 1000000, 900),
+    text="2-4 writer tasks send 1-3 messages each through Channel.Write or ctx.Write on one channel, all messages of a run using one carrier (what reaches the head: []byte, [][]byte, *bytes.Buffer, single-write io.WriterTo, single-read io.Reader, multi-write io.WriterTo, multi-read io.Reader, string) bare or below a shipped codec (delimiter, delimiter+text, length-field, varint), sizes below/at/above the 1024-byte streaming chunk, sync and queued channels. The wire must be a concatenation of whole reference encodings (harness' own encoder). Multi-write carriers violate this by construction on the pinned tree: recorded as known findings per carrier class; every other class is fully checked.",
+    note=NOTE + " Known findings (known_findings.json): messages that the head streams as several independent writes (io.Reader needing several reads or > 1024 bytes, chunking io.WriterTo, and everything the delimiter codec turns into a MultiReader, including the README pipeline delimiter+text).",
+    rule="Scenario: concurrent Channel.Write/ctx.Write of uniquely identifiable messages; violation class = pipeline + carrier + sync/async.")
+
+PROPS["C14"] = dict(T(12000, 40, 600000, 900),
+    text="One writer sends 1-4 messages through Channel.Write on sync and queued channels, carriers []byte, [][]byte (with empty elements), *bytes.Buffer, single-write io.WriterTo, chunk-buffer-reusing io.WriterTo, io.Reader with tape-driven short reads / zero-length reads / data-with-EOF, sizes 0..70001, plus unsupported types (int, struct, nil); the background sender interleaves with the streaming loop. Transport bytes must equal the concatenated contents; an unsupported type raises exactly one exception and transmits nothing. The conversion helpers (ToBytes, ToReader, CountOf, ByteReader, StealBytes) are evaluated on fresh copies of the same carriers against reference conversions; that clause has no schedule in it and is reported separately (helper_evaluations). Found the StealBytes defect (fixed in /repo).",
+    note=NOTE + " The helper clause is input-driven (no schedule, clock or fault enters); only the transmission clause is decided by simulation proper.",
+    rule="Scenario: single writer, message carriers and reader behaviours from the tape; distinct = distinct (carrier plan, schedule).")
+
 NOT_APPLICABLE = {
     "C03": "Pipeline order and routing are pure functions of the build program and the event: the handler list is immutable after build and traversed by whichever goroutine delivers the event; no schedule, clock, fault or I/O behaviour enters. Simulation would only be relabelled input generation (DESIGN.md section 3, C03).",
     "C19": "pool.Pool adds no concurrency, time or I/O of its own: shard choice is arithmetic on sizes, mutual exclusion is entirely sync.Pool's, which the simulator has to replace by a stub, so simulated concurrent use would exercise the stub and not the repository (DESIGN.md section 3, C19).",
 }
-for _p in ["C04", "C08", "C09", "C14", "C15", "C16", "C17"]:
+for _p in ["C04", "C08", "C15", "C16", "C17"]:
     NOT_APPLICABLE.setdefault(_p, "check under construction in this session (planned as applicable, DESIGN.md section 3); not claimed until it runs clean")
